@@ -63,52 +63,17 @@ func rprop_dense_with_gradient(evalGradient DenseGradientF, x0 DenseFloat64Vecto
   if constraints.Value != nil && !constraints.Value(x1) {
     return x1, fmt.Errorf("invalid initial value: %v", x1)
   }
+  // evaluate the gradient at the initial value
+  if err := evalGradient(x1, gradient_new); err != nil {
+    return x1, err
+  }
+  if gradient_is_nan(gradient_new) {
+    return x1, fmt.Errorf("gradient is NaN for initial value: %v", x1)
+  }
   for i := 0; i < maxIterations.Value; i++ {
-    for i := 0; i < x1.Dim(); i++ {
-      gradient_old[i] = gradient_new[i]
-    }
     // execute hook if available
     if hook.Value != nil && hook.Value(gradient_new, step, x1, nil) {
       break;
-    }
-    for {
-      // update x
-      for i := 0; i < x1.Dim(); i++ {
-        if gradient_new[i] != 0.0 {
-          if gradient_new[i] > 0.0 {
-            x2[i] = x1[i] - step[i]
-          } else {
-            x2[i] = x1[i] + step[i]
-          }
-        }
-        if math.IsNaN(x2.ConstAt(i).GetFloat64()) {
-          return x2, fmt.Errorf("NaN value detected")
-        }
-      }
-      // compute partial derivatives and update x
-      if err := evalGradient(x2, gradient_new); err != nil {
-        return x1, err
-      }
-      if gradient_is_nan(gradient_new) ||
-        (constraints.Value != nil && !constraints.Value(x2)) {
-        // if the updated is invalid reduce step size
-        stalled := true
-        for i := 0; i < x1.Dim(); i++ {
-          if gradient_new[i] != 0.0 {
-            if t := step[i]*eta[1]; t < step[i] && x1[i] + t != x1[i] {
-              stalled = false
-            }
-            step[i] *= eta[1]
-          }
-        }
-        if stalled {
-          // the steps cannot be reduced any further or are too small to change x
-          return x1, fmt.Errorf("no valid point found")
-        }
-      } else {
-        // new position is valid, exit loop
-        break
-      }
     }
     // evaluate stop criterion
     if (Norm(gradient_new) < epsilon.Value) {
@@ -123,6 +88,49 @@ func rprop_dense_with_gradient(evalGradient DenseGradientF, x0 DenseFloat64Vecto
         } else {
           step[i] *= eta[1]
         }
+      }
+    }
+    // gradient at x1, it determines the direction of the step
+    for i := 0; i < x1.Dim(); i++ {
+      gradient_old[i] = gradient_new[i]
+    }
+    for {
+      // update x
+      for i := 0; i < x1.Dim(); i++ {
+        if gradient_old[i] != 0.0 {
+          if gradient_old[i] > 0.0 {
+            x2[i] = x1[i] - step[i]
+          } else {
+            x2[i] = x1[i] + step[i]
+          }
+        }
+        if math.IsNaN(x2.ConstAt(i).GetFloat64()) {
+          return x2, fmt.Errorf("NaN value detected")
+        }
+      }
+      // compute partial derivatives at the new position
+      if err := evalGradient(x2, gradient_new); err != nil {
+        return x1, err
+      }
+      if gradient_is_nan(gradient_new) ||
+        (constraints.Value != nil && !constraints.Value(x2)) {
+        // if the updated is invalid reduce step size
+        stalled := true
+        for i := 0; i < x1.Dim(); i++ {
+          if gradient_old[i] != 0.0 {
+            if t := step[i]*eta[1]; t < step[i] && x1[i] + t != x1[i] {
+              stalled = false
+            }
+            step[i] *= eta[1]
+          }
+        }
+        if stalled {
+          // the steps cannot be reduced any further or are too small to change x
+          return x1, fmt.Errorf("no valid point found")
+        }
+      } else {
+        // new position is valid, exit loop
+        break
       }
     }
     copy(x1, x2)
